@@ -63,6 +63,7 @@ def handle : Handler := fun op args =>
   -- compared with itself (before main() vs from main(); results held simultaneously vs copied)
   -- dense scan of the bitwise laws of Round next to carries (decided on the implementation's own output)
   | "c17.roundscan" => withArgs (do let d ← pNat; let e ← pInt; let n ← pNat; let o ← pRat; let s ← pInt; pure (d, e, n, o, s)) args fun _ => "ok -"
+  | "c17.vshseq" => withArgs (do let r ← pList (do let k ← tok; let l ← pInt; let m ← pInt; let t ← pRat; let p ← pRat; pure (k, l, m, t, p)); pure r) args fun _ => "ok -"
   | "c17.premain" => withArgs (pure ()) args fun _ => "ok -"
   | "c17.vshhold" => withArgs (do let k ← tok; let r ← pMany (do let l ← pInt; let m ← pInt; let t ← pRat; let p ← pRat; pure (l, m, t, p)) 3; pure (k, r)) args fun _ => "ok -"
   | "c17.inverfscan" => withArgs (do let sg ← pInt; let a ← pRat; let b ← pRat; let st ← pRat; let o ← pRat; pure (sg, a, b, st, o)) args fun _ => "ok -"
